@@ -64,7 +64,7 @@ def stage_audit(prop, modules=None):
         src = open(os.path.join(LEAN, module.replace(".", "/") + ".lean")).read()
         for ns in re.findall(r"^namespace\s+([\w.]+)", strip_comments(src), re.M):
             if ns not in namespaces: namespaces.append(ns)
-        theorems += re.findall(r"^theorem\s+([\w.']+)", strip_comments(src), re.M)
+        theorems += re.findall(r"^theorem\s+([\w.'?!]+)", strip_comments(src), re.M)
         for f in lean_imports(module):
             if f not in files: files.append(f)
     problems = []
@@ -82,9 +82,9 @@ def stage_audit(prop, modules=None):
     axioms = {}
     if rc != 0:
         problems.append("audit file does not check: " + out[-1500:])
-    for m in re.finditer(r"'([\w.']+)' depends on axioms: \[([^\]]*)\]", out.replace("\n", " ")):
+    for m in re.finditer(r"'([\w.'?!]+)' depends on axioms: \[([^\]]*)\]", out.replace("\n", " ")):
         axioms[m.group(1).split(".")[-1]] = sorted(a.strip() for a in m.group(2).split(",") if a.strip())
-    for m in re.finditer(r"'([\w.']+)' does not depend on any axioms", out):
+    for m in re.finditer(r"'([\w.'?!]+)' does not depend on any axioms", out):
         axioms[m.group(1).split(".")[-1]] = []
     for t in theorems:
         if t not in axioms:
@@ -250,7 +250,7 @@ def run_check(prop, mod, tier, seed):
         for m in modules:
             try:
                 src = open(os.path.join(LEAN, "Simpleline/Props/%s.lean" % m)).read()
-                theorems += re.findall(r"^theorem\s+([\w.']+)", strip_comments(src), re.M)
+                theorems += re.findall(r"^theorem\s+([\w.'?!]+)", strip_comments(src), re.M)
             except OSError:
                 pass
     recheck = None
